@@ -1,7 +1,13 @@
 use super::get_or_create_resource_node;
 use crate::base::{BaseSlot, EntryContext, StatPrepareSlot};
+#[cfg(not(sentinel_verif))]
 use lazy_static::lazy_static;
+#[cfg(sentinel_verif)]
+use sentinel_verif_rt::lazy_static;
+#[cfg(not(sentinel_verif))]
 use std::sync::Arc;
+#[cfg(sentinel_verif)]
+use sentinel_verif_rt::sync::Arc;
 
 const PREPARE_SLOT_ORDER: u32 = 1000;
 
